@@ -47,6 +47,38 @@ fn main() {
             t = *tn; y = [yn[0], yn[1]];
         }
     }
+    // ---- Adams: y' = g(t) does not depend on y, so the derivative history is g at the history times whatever the
+    // predictor was; every yielded point must be an RK4 step or the Adams-Moulton corrector over the preceding equally spaced points
+    {
+        use bacon_sci::ivp::adams::{Adams3, Adams5};
+        fn g(t: f64) -> f64 { (1.3 * t).cos() + 0.5 * t }
+        fn gd(t: f64, _y: &[f64], _: &mut ()) -> Result<BSVector<f64, 1>, UserError> { Ok(BSVector::from_column_slice(&[g(t)])) }
+        for order in [3usize, 5] {
+            let path = if order == 5 {
+                Adams5::new().unwrap().with_maximum_dt(0.05).unwrap().with_minimum_dt(1e-7).unwrap().with_tolerance(1e-3).unwrap().with_initial_time(0.0).unwrap()
+                    .with_ending_time(1.02).unwrap().with_initial_conditions_slice(&[0.25]).unwrap().with_derivative(gd).solve(()).unwrap().collect_vec()
+            } else {
+                Adams3::new().unwrap().with_maximum_dt(0.05).unwrap().with_minimum_dt(1e-7).unwrap().with_tolerance(1e-3).unwrap().with_initial_time(0.0).unwrap()
+                    .with_ending_time(1.02).unwrap().with_initial_conditions_slice(&[0.25]).unwrap().with_derivative(gd).solve(()).unwrap().collect_vec()
+            };
+            let name = format!("Adams{order}");
+            let path = match path { Ok(p) => p, Err(e) => { found.push(format!("{name}: solve failed: {e:?}")); continue; } };
+            let am: &[f64] = if order == 5 { &[251.0 / 720.0, 646.0 / 720.0, -264.0 / 720.0, 106.0 / 720.0, -19.0 / 720.0] } else { &[5.0 / 12.0, 8.0 / 12.0, -1.0 / 12.0] };
+            let mut pts: Vec<(f64, f64)> = vec![(0.0, 0.25)];
+            for (k, (tn, yn)) in path.iter().enumerate() {
+                let (t, y) = *pts.last().unwrap(); let h = tn - t;
+                // RK4 on y' = g(t) is Simpson's rule
+                let rk4 = y + h / 6.0 * (g(t) + 4.0 * g(t + 0.5 * h) + g(t + h));
+                // Adams-Moulton corrector over the new time and the order-1 preceding equally spaced times
+                let mut amv = y + h * am[0] * g(*tn);
+                for j in 1..order { amv += h * am[j] * g(*tn - j as f64 * h); }
+                let spaced = pts.len() >= order - 1 && (1..order - 1).all(|j| ((pts[pts.len() - j].0 - pts[pts.len() - 1 - j].0) - h).abs() < 1e-9);
+                let ok = (rk4 - yn[0]).abs() < 1e-11 || (spaced && (amv - yn[0]).abs() < 1e-11);
+                if !ok { found.push(format!("{name}: point {k} at t={tn} (h={h:.6}) is neither an RK4 step ({:e} off) nor the Adams-Moulton update of the preceding equally spaced points ({:e} off)", (rk4 - yn[0]).abs(), (amv - yn[0]).abs())); break; }
+                pts.push((*tn, yn[0]));
+            }
+        }
+    }
     found.truncate(8);
     println!("{{\"found\": {}, \"failures\": {:?}}}", !found.is_empty(), found);
     std::process::exit(if found.is_empty() { 0 } else { 1 });
